@@ -53,10 +53,14 @@ func ChildRun(args []string) {
 	node, err := kernel.SetupNode(custom, store, newCache(), env.Gns)
 	must(err)
 	r := NewRunner(env, node, store, spec)
+	total0 := ""
+	if _, bal, err := inner.ReadAssetWithBalance(common.XINAssetId); err == nil {
+		total0 = bal.String()
+	}
 	store.Activate()
 	r.Run()
 	if *logPath != "" {
-		b, _ := json.Marshal(r.Log)
+		b, _ := json.Marshal(map[string]any{"log": r.Log, "total0": total0})
 		os.WriteFile(*logPath, b, 0o644)
 	}
 	store.trace.Sync()
@@ -77,6 +81,7 @@ type Recovered struct {
 	TopoLast   uint64   `json:"topo_last"`
 	NodeTopo   uint64   `json:"node_topo"`
 	LastMint   uint64   `json:"last_mint"`          // Node.LastMint after SetupNode
+	XinTotal   string   `json:"xin_total"`          // ReadAssetWithBalance(XIN)
 	Problems   []string `json:"problems,omitempty"` // scan: finalized tx without body/outputs/finalization, duplicate positions
 	Finalized  int      `json:"finalized"`
 	SnapHashes []string `json:"-"`
@@ -173,9 +178,15 @@ func scan(res *Recovered, store *storage.BadgerStore, node *kernel.Node, env *En
 	}
 	res.NodeTopo = node.TopologicalOrder()
 	res.LastMint = node.LastMint
+	if _, bal, err := store.ReadAssetWithBalance(common.XINAssetId); err == nil {
+		res.XinTotal = bal.String()
+	} else {
+		res.Problems = append(res.Problems, "asset total unreadable: "+err.Error())
+	}
 
 	seenSnap := map[crypto.Hash]uint64{}
 	seenTx := map[crypto.Hash]bool{}
+	var spent []spentInput
 	offset := uint64(0)
 	expect := uint64(0)
 	for {
@@ -211,17 +222,33 @@ func scan(res *Recovered, store *storage.BadgerStore, node *kernel.Node, env *En
 				}
 				seenTx[th] = true
 				res.Finalized++
-				checkFinalizedTx(res, store, th, seenSnap)
+				spent = append(spent, checkFinalizedTx(res, store, th, h)...)
 			}
 		}
 		offset = snaps[len(snaps)-1].TopologicalOrder + 1
+	}
+	// an output consumed by a finalized transaction must stay consumed (checked last: a successful
+	// lock would change the store)
+	other := crypto.Blake3Hash([]byte("c22-another-transaction"))
+	for _, sp := range spent {
+		err := store.LockUTXOs([]*common.Input{sp.in}, other, false)
+		if err == nil {
+			res.Problems = append(res.Problems, fmt.Sprintf("tx-outputs: output %d of %s, spent by finalized transaction %s, can be locked by another transaction",
+				sp.in.Index, short(sp.in.Hash), short(sp.by)))
+		}
 	}
 	if res.TopoCount > 0 && res.NodeTopo != res.TopoLast {
 		res.Problems = append(res.Problems, fmt.Sprintf("topology-counter: node resumes at %d, last stored position %d", res.NodeTopo, res.TopoLast))
 	}
 }
 
-func checkFinalizedTx(res *Recovered, store *storage.BadgerStore, th crypto.Hash, seenSnap map[crypto.Hash]uint64) {
+type spentInput struct {
+	in *common.Input
+	by crypto.Hash
+}
+
+// checkFinalizedTx: th was first finalized by snapshot `first` (topology order).
+func checkFinalizedTx(res *Recovered, store *storage.BadgerStore, th, first crypto.Hash) (spent []spentInput) {
 	defer func() {
 		if rec := recover(); rec != nil {
 			res.Problems = append(res.Problems, fmt.Sprintf("tx-scan-panic %s: %v", short(th), rec))
@@ -237,13 +264,8 @@ func checkFinalizedTx(res *Recovered, store *storage.BadgerStore, th crypto.Hash
 	}
 	if fin == "" {
 		res.Problems = append(res.Problems, fmt.Sprintf("tx-finalization: finalized transaction %s has no finalization record", short(th)))
-	} else {
-		fh, err := crypto.HashFromString(fin)
-		if err != nil {
-			res.Problems = append(res.Problems, fmt.Sprintf("tx-finalization: %s malformed", short(th)))
-		} else if sn, err := store.ReadSnapshot(fh); err != nil || sn == nil {
-			res.Problems = append(res.Problems, fmt.Sprintf("tx-finalization: %s points at a snapshot that is not in the topology", short(th)))
-		}
+	} else if fin != first.String() {
+		res.Problems = append(res.Problems, fmt.Sprintf("tx-finalization: record of %s names snapshot %s, it was first finalized by %s", short(th), fin[:12], short(first)))
 	}
 	for _, u := range tx.UnspentOutputs() {
 		out, err := store.ReadUTXOLock(u.Hash, u.Index)
@@ -251,5 +273,20 @@ func checkFinalizedTx(res *Recovered, store *storage.BadgerStore, th crypto.Hash
 			res.Problems = append(res.Problems, fmt.Sprintf("tx-outputs: output %d of finalized transaction %s is not stored (%v)", u.Index, short(th), err))
 		}
 	}
-	_ = common.XINAssetId
+	for _, in := range tx.Inputs {
+		if in.Deposit != nil || in.Mint != nil || len(in.Genesis) > 0 || !in.Hash.HasValue() {
+			continue
+		}
+		out, err := store.ReadUTXOLock(in.Hash, in.Index)
+		if err != nil || out == nil {
+			res.Problems = append(res.Problems, fmt.Sprintf("tx-outputs: input %s:%d of finalized transaction %s is not stored (%v)", short(in.Hash), in.Index, short(th), err))
+			continue
+		}
+		if out.LockHash != th {
+			res.Problems = append(res.Problems, fmt.Sprintf("tx-outputs: output %d of %s is consumed by finalized transaction %s but its stored lock is %s",
+				in.Index, short(in.Hash), short(th), short(out.LockHash)))
+		}
+		spent = append(spent, spentInput{in: in, by: th})
+	}
+	return
 }
